@@ -19,7 +19,7 @@ var actions = []string{reactx.WInvalidate, reactx.WStrobe, "stop", reactx.WDoubl
 // owned lists the finding kinds that are verdicts of C04.
 var owned = map[string]bool{
 	reactx.KOverlap: true, reactx.KRunAfterStop: true, reactx.KInflightStop: true,
-	reactx.KStale: true, reactx.KLivelock: true,
+	reactx.KStale: true, reactx.KLivelock: true, reactx.KInvalidDep: true,
 }
 
 func TestCheck(t *testing.T) {
@@ -45,7 +45,8 @@ func TestCheck(t *testing.T) {
 	M := len(matrix)
 	variants := run.N(2, 100)
 	nRandom := run.N(500, 120000)
-	total := M*variants + nRandom
+	nStorm := run.N(160, 40000)
+	total := M*variants + nRandom + nStorm
 	agg := vlib.NewHitAgg()
 	pf := reactx.Profile{}
 	opt := reactx.Options{}
@@ -127,6 +128,15 @@ func TestCheck(t *testing.T) {
 			return
 		}
 		j := i - M*variants
+		if j >= nRandom {
+			j -= nRandom
+			sc := reactx.GenStorm(run.Rand("storm", j))
+			fmt.Printf("CASE %d storm %d\n", i, j)
+			res := reactx.Run(sc, opt, agg)
+			run.Case(fmt.Sprintf("%s|%x", sc.Shape(), res.Trace), res.Stats["registrations_released_with_an_invalidate"] > 0)
+			report(i, sc, res)
+			return
+		}
 		r := run.Rand("random", j)
 		sc := reactx.GenRandom(r, pf)
 		fmt.Printf("CASE %d random %d\n", i, j)
